@@ -74,6 +74,7 @@ class Truth:
         self.mailboxes = set()
         self.closing_state = None   # description of where close() hit
         self.close_refused = False  # server answered our `close` with error
+        self.close_refused_why = None
 
     def cause(self, v, sim):
         if self.expected is None:
@@ -177,6 +178,7 @@ def run_one(seed, tape, opts):
             t.cause("ServerError", sim)
             if (msg.get("orig") or {}).get("type") == "close":
                 t.close_refused = True
+                t.close_refused_why = msg.get("error")
                 sim.note("probe.server_refused_close")
         elif ty == "allocated":
             if t.expected is None and not t.code_known:
@@ -262,10 +264,14 @@ def run_one(seed, tape, opts):
             # `open` and never closes it (left to the server's pruning). Not
             # gated: the client did not open that mailbox. Counted as a probe.
             sim.note("probe.claim_only_mailbox_left_to_pruning")
-        if opened and not t.close_refused:
+        if opened and not (t.close_refused and
+                           t.close_refused_why == "crowded"):
+            # (a `close` refused as crowded concerns a mailbox this side was
+            # never admitted to; any other refusal leaves our side open)
             V("C08.mailbox_not_closed", "by the closed notification the client"
-              " has closed its mailbox", "%s still has %r open" %
-              (c.name, opened))
+              " has closed its mailbox", "%s still has %r open on the server"
+              "%s" % (c.name, opened, "; the server refused its close: %r" %
+                      t.close_refused_why if t.close_refused else ""))
             return
         opens = [m for m in cmds if m["type"] == "open"]
         closes = [m for m in cmds if m["type"] == "close"]
